@@ -169,8 +169,9 @@ static ASMJIT_INLINE bool check_op_sig(const InstDB::OpSignature& op, const Inst
       return false;
     }
 
-    // Fail if the base register is not the one the instruction implies (string instructions - `es:[zdi]`, `ds:[zsi]`).
-    if (ref.reg_mask() && !Support::test(op.reg_mask(), ref.reg_mask())) {
+    // Fail if the base register is not the one the instruction implies (string instructions - `es:[zdi]`, `ds:[zsi]`). A signature
+    // that also has a register alternative (`ax|m16` of fnstsw) fixes that register, not the base of the memory alternative.
+    if (ref.reg_mask() && !Support::test(ref.flags(), InstDB::OpFlags::kRegMask) && !Support::test(op.reg_mask(), ref.reg_mask())) {
       return false;
     }
   }
